@@ -229,8 +229,13 @@ register_descriptor!{
 pub fn set(m: &Set, env: Option<&Environment>, p: &Interpreter) -> MResult<Value> { 
   let mut elements = Vec::new();
   for el in &m.elements {
-    let result = expression(el, env, p)?;
-    elements.push(result.clone());
+    let mut result = expression(el, env, p)?;
+    // an element given by a variable is the variable's value, not the reference to it
+    while let Value::MutableReference(reference) = result {
+      let inner = reference.borrow().clone();
+      result = inner;
+    }
+    elements.push(result);
   }
   let element_kind = if elements.len() > 0 {
     elements[0].kind()
